@@ -1,5 +1,5 @@
 SPECIFICATION Spec
-CONSTANTS Mode = "energy"  Variant = "ok"  Family = "list"  List = { 1050107, 2110109 }  Steps = 1  PairMod = 1
+CONSTANTS Mode = "energy"  Variant = "ok"  Family = "list"  List = { 1050107 }  Steps = 1  PairMod = 2
           Extra = { 1100, 1010 }
 INVARIANT TypeOK
 INVARIANT WallsHold
